@@ -1,6 +1,6 @@
 (* C07 — Genotype-to-phenotype mapping is a pure function of the genotype.
    Only statements closed by [exact]; Print Assumptions; non-vacuity example. *)
-From GE Require Import Base Tape Grammar WellTyped Synth Linear SynthFrame SynthGenes DnaExtends DsgeReplay.
+From GE Require Import Base Tape Grammar WellTyped Synth Linear SynthFrame SynthGenes DnaExtends DsgeReplay KnownRefuted.
 Open Scope Z_scope.
 
 (* GE: for every grammar, decider (grow, full, PI-grow, progressive), genotype and fuel, the mapping
@@ -63,4 +63,14 @@ Theorem C07_dsge_mapping_is_idempotent : forall fuel g D s dna v st1,
   forall s', exists st2, dsge_map fuel g D s' (st_dna st1) = (Ok v, st2) /\ st_src st2 = s' /\ st_dna st2 = st_dna st1.
 Proof. exact dsge_map_idempotent. Qed.
 Print Assumptions C07_dsge_mapping_is_idempotent.
+
+(* known finding F15 as a theorem about the model: with a refined field the same dSGE genotype maps to different programs
+   depending on the source handed to the mapping, and the mapping consumes that source *)
+Theorem C07_dsge_refined_refuted :
+  exists dna,
+    fst (dsge_map 60 g15 3 (Native [DI 3]) dna) = Ok (VNode 1%nat [VInt 3]) /\
+    fst (dsge_map 60 g15 3 (Native [DI 7]) dna) = Ok (VNode 1%nat [VInt 7]) /\
+    st_src (snd (dsge_map 60 g15 3 (Native [DI 7; DI 5]) dna)) = Native [DI 5].
+Proof. exact dsge_refined_mapping_depends_on_the_source. Qed.
+Print Assumptions C07_dsge_refined_refuted.
 
